@@ -59,6 +59,21 @@ def run_task(prog, tid, params, tier):
         if res.kind != 'return':
             return None
         covers['ok' if res.value.var == 'Ok' else 'err'] += 1
+        if res.value.var == 'Ok' and L >= 12:
+            # C05: the sections returned correspond one-to-one to the header counts (an OPT record is lifted out of the
+            # additional section and counted once)
+            p = res.value.f[0]
+            opt = 1 if p.f[0].f[4].var == 'Some' else 0
+            got = [len(p.f[1].items), len(p.f[2].items), len(p.f[3].items), len(p.f[4].items) + opt]
+            conds = []
+            for k in range(4):
+                cnt = z3.Concat(syms[4 + 2 * k].z(), syms[5 + 2 * k].z())
+                conds.append(cnt != got[k])
+            if res.ctx.check(z3.Or(conds)):
+                m = res.ctx.solver.model()
+                return {'status': 'violation', 'role': 'counts', 'detail': 'Packet::parse accepts a message but returns %r entries, '
+                        'different from the header counts (counts running past the end must be rejected)' % (got,),
+                        'cex': {'entry': 'packet_counts', 'bytes': X.model_bytes(m, syms), 'expect': {'any_failure': True}}}
         total = mk('usize', 0)
         for ev in I.events:
             if ev[0] == 'alloc':
